@@ -33,6 +33,16 @@ m = {
     "notes": "See DESIGN.md. Exit codes: 0 held, 1 VIOLATION, 2 inconclusive (build failure/timeout; never a violation). KNOWN-FINDING lines come from known_findings.json.",
     "not_applicable": [],
 }
+def technique_of(c):
+    t = c.get("technique", "property-based testing (rapid) against an explicit oracle")
+    fz = list(c.get("fuzz", []))
+    for part in c.get("parts", []):
+        fz += part.get("fuzz", [])
+    if fz and "fuzz" not in t.lower():
+        t += "; native coverage-guided fuzzing (go test -fuzz: %s) through the same oracle in the thorough tier, its seed corpus replayed in every tier" % ", ".join(x["pkg"] + "." + x["target"] for x in fz)
+    return t
+
+
 for p in props:
     cid = p["id"]
     if cid in checks:
@@ -50,7 +60,7 @@ for p in props:
                 "design_ref": "DESIGN.md section 5 " + cid,
             },
             "level_note": c.get("note", "assumes SHA-256/ECDSA are sound; covers only generated cases within the stated bounds"),
-            "technique": c.get("technique", "property-based testing (rapid) against an explicit oracle"),
+            "technique": technique_of(c),
         })
     else:
         m["not_applicable"].append({"property_id": cid, "reason": na.get(cid, "check not built yet in this session; planned, see DESIGN.md section 5 " + cid)})
